@@ -1,6 +1,7 @@
 import OnetVerif.Model.C16
 import OnetVerif.Proofs.C16
 import OnetVerif.Proofs.C16Sim
+import OnetVerif.Shapes
 /-! Property C16 — service storage returns what was saved, per service, across restarts.
 
 `Db` = bucket name → key → bytes is the bbolt file; `step` is one storage call of a service's
@@ -270,5 +271,42 @@ example : lastSaved [1] [2] [.call [1] (.save [2] [7]), .restart [[1]], .call [3
   decide
 
 example : toInt32 5 = 5 ∧ toInt32 2147483648 = -2147483648 ∧ toInt32 (4294967296 + 5) = 5 := by decide
+
+/-! ### the code regions the model stands for
+Regenerated from /repo's source on every run (`harness/cmd/astfacts` → `OnetVerif/Shapes.lean`): the
+calls that matter for synchronisation and data flow, the lock regions and (for decision logic) the
+conditions, in source order.  A re-ordering, a dropped call or a changed condition breaks these
+obligations even when no sampled input or schedule shows a difference; the check then searches for
+a failing input. -/
+theorem c16_shape_Context_Save :
+    Shapes.context_Context_Save =
+   ["network.Marshal", "tx.Bucket", "b.Put", "db.Update"] := rfl
+
+theorem c16_shape_Context_Load :
+    Shapes.context_Context_Load =
+   ["tx.Bucket", "Bucket().Get", "copy", "db.View", "network.Unmarshal"] := rfl
+
+theorem c16_shape_Context_LoadRaw :
+    Shapes.context_Context_LoadRaw =
+   ["tx.Bucket", "Bucket().Get", "copy", "db.View"] := rfl
+
+theorem c16_shape_Context_LoadVersion :
+    Shapes.context_Context_LoadVersion =
+   ["tx.Bucket", "Bucket().Get", "copy", "db.View", "bytes.NewReader", "binary.Read"] := rfl
+
+theorem c16_shape_Context_SaveVersion :
+    Shapes.context_Context_SaveVersion =
+   ["bytes.NewBuffer", "int32", "binary.Write", "tx.Bucket", "buf.Bytes", "b.Put", "db.Update"] := rfl
+
+theorem c16_shape_Context_GetAdditionalBucket :
+    Shapes.context_Context_GetAdditionalBucket =
+   ["copy", "byte", "tx.CreateBucketIfNotExists", "db.Update"] := rfl
+
+theorem c16_shape_newServer :
+    Shapes.server_newServer =
+   ["if:(dbPath==\"\")", "dbPathFromEnv", "else", "newStatusReporterStruct",
+     "newProtocolStorage", "NewOverlay", "NewWebSocket", "newServiceManager",
+     "statusReporterStruct.RegisterStatusReporter", "return:c"] := rfl
+
 
 end C16
